@@ -306,6 +306,20 @@ func rulePanic(p *Prog, r *Result) {
 							}
 						}
 					}
+				case *ssa.MakeSlice:
+					// make([]T, n, m) panics for a negative (or absurdly large) size: sizes must be constants, lengths, or tested
+					for _, sz := range []ssa.Value{x.Len, x.Cap} {
+						if sz == nil {
+							continue
+						}
+						if ok, why := a.nonNegative(sz, in.Block(), 0); ok {
+							if _, isC := sz.(*ssa.Const); !isC {
+								r.OK("C08.panic", fmt.Sprintf("%s / make with size %s", p.FuncName(fn), describeValue(p, sz)), p.InstrPos(in), why)
+							}
+						} else {
+							r.Fail("C08.panic", fmt.Sprintf("%s / make with size %s", p.FuncName(fn), describeValue(p, sz)), p.InstrPos(in), "make with a size that is not known to be non-negative (a negative size is a run-time panic): "+why)
+						}
+					}
 				case *ssa.MapUpdate:
 					if isNilConst(x.Map, map[ssa.Value]bool{}) {
 						r.Fail("C08.panic", p.FuncName(fn)+" / write to nil map", p.InstrPos(in), "map assignment on a map that may be the nil constant")
@@ -1008,9 +1022,36 @@ func (a *panicAudit) parallelIndex(fn *ssa.Function, at *ssa.BasicBlock, base, i
 }
 
 func nonNegInduction(v ssa.Value) bool {
-	if bo, ok := v.(*ssa.BinOp); ok && bo.Op == token.ADD {
-		if c, ok := constInt(bo.Y); ok && c == 1 {
-			if phi, ok := bo.X.(*ssa.Phi); ok {
+	return nonNegValue(v, map[ssa.Value]bool{}, 0)
+}
+
+// nonNegValue: an integer that is never negative: a constant >= 0, a length, a range index (rangeindex phi
+// starting at -1 is used only after its increment), a counter that starts at such a value and is only
+// incremented, a sum of such values. Cycles through phis are taken optimistically (induction).
+func nonNegValue(v ssa.Value, seen map[ssa.Value]bool, depth int) bool {
+	if depth > 8 {
+		return false
+	}
+	if seen[v] {
+		return true
+	}
+	switch x := v.(type) {
+	case *ssa.Const:
+		k, ok := constInt(x)
+		return ok && k >= 0
+	case *ssa.Call:
+		if bi, ok := x.Common().Value.(*ssa.Builtin); ok && (bi.Name() == "len" || bi.Name() == "cap") {
+			return true
+		}
+		return false
+	case *ssa.BinOp:
+		if x.Op != token.ADD {
+			return false
+		}
+		// rangeindex: phi(-1, phi+1) + 1
+		if c, ok := constInt(x.Y); ok && c == 1 {
+			if phi, ok := x.X.(*ssa.Phi); ok {
+				all := true
 				for _, e := range phi.Edges {
 					if k, ok := constInt(e); ok && k >= -1 {
 						continue
@@ -1018,25 +1059,25 @@ func nonNegInduction(v ssa.Value) bool {
 					if e == v {
 						continue
 					}
-					return false
+					all = false
 				}
-				return true
+				if all {
+					return true
+				}
 			}
 		}
-	}
-	if phi, ok := v.(*ssa.Phi); ok {
-		for _, e := range phi.Edges {
-			if k, ok := constInt(e); ok && k >= 0 {
-				continue
+		seen[v] = true
+		return nonNegValue(x.X, seen, depth+1) && nonNegValue(x.Y, seen, depth+1)
+	case *ssa.Phi:
+		seen[v] = true
+		for _, e := range x.Edges {
+			if !nonNegValue(e, seen, depth+1) {
+				return false
 			}
-			if bo, ok := e.(*ssa.BinOp); ok && bo.Op == token.ADD && bo.X == ssa.Value(phi) {
-				if c, ok := constInt(bo.Y); ok && c > 0 {
-					continue
-				}
-			}
-			return false
 		}
 		return true
+	case *ssa.Convert:
+		return nonNegValue(x.X, seen, depth+1)
 	}
 	return false
 }
@@ -1096,9 +1137,38 @@ func lockstep(p *Prog, x, y ssa.Value, seen map[[2]ssa.Value]bool, depth int) (b
 			}
 		}
 		return true, "corresponding phi edges are in lockstep"
+	case *ssa.MakeSlice:
+		// make([]T, n, ...) on both sides with the same constant length (typically 0 with a capacity hint)
+		b, ok := y.(*ssa.MakeSlice)
+		if !ok {
+			if sl, isSl := y.(*ssa.Slice); isSl {
+				if lb, okb := literalLen(sl); okb {
+					if la, oka := constInt(a.Len); oka && la == lb {
+						return true, fmt.Sprintf("both of length %d", la)
+					}
+				}
+			}
+			return false, ""
+		}
+		la, ok1 := constInt(a.Len)
+		lb, ok2 := constInt(b.Len)
+		if ok1 && ok2 && la == lb {
+			return true, fmt.Sprintf("both made with length %d", la)
+		}
+		if a.Len == b.Len {
+			return true, "both made with the same length"
+		}
+		return false, ""
 	case *ssa.Slice:
 		b, ok := y.(*ssa.Slice)
 		if !ok {
+			if mk, isMk := y.(*ssa.MakeSlice); isMk {
+				if la, oka := literalLen(a); oka {
+					if lb, okb := constInt(mk.Len); okb && la == lb {
+						return true, fmt.Sprintf("both of length %d", la)
+					}
+				}
+			}
 			return false, ""
 		}
 		la, ok1 := literalLen(a)
@@ -1316,4 +1386,99 @@ func (a *panicAudit) foundIndex(in ssa.Instruction, base, idx ssa.Value, isSlice
 		}
 	}
 	return false, ""
+}
+
+// nonNegative: the integer value cannot be negative where it is used: a non-negative constant, a length
+// or capacity, sums/products/min/max of such, a range index, or a value tested (>= 0, > 0, >= k) on the
+// way to the use.
+func (a *panicAudit) nonNegative(v ssa.Value, at *ssa.BasicBlock, depth int) (bool, string) {
+	if depth > 6 {
+		return false, "expression too deep"
+	}
+	switch x := v.(type) {
+	case *ssa.Const:
+		if x.Value != nil && x.Value.Kind() == constant.Int && constant.Sign(x.Value) >= 0 {
+			return true, "non-negative constant"
+		}
+		return false, "negative constant"
+	case *ssa.Call:
+		if bi, ok := x.Common().Value.(*ssa.Builtin); ok {
+			switch bi.Name() {
+			case "len", "cap":
+				return true, "a length"
+			case "min":
+				// min is non-negative only if all operands are
+				for _, arg := range x.Common().Args {
+					if ok, why := a.nonNegative(arg, at, depth+1); !ok {
+						return false, why
+					}
+				}
+				return true, "minimum of non-negative sizes"
+			case "max":
+				for _, arg := range x.Common().Args {
+					if ok, _ := a.nonNegative(arg, at, depth+1); ok {
+						return true, "maximum with a non-negative size"
+					}
+				}
+			}
+		}
+	case *ssa.BinOp:
+		switch x.Op {
+		case token.ADD, token.MUL:
+			okx, wx := a.nonNegative(x.X, at, depth+1)
+			oky, wy := a.nonNegative(x.Y, at, depth+1)
+			if okx && oky {
+				return true, "sum/product of non-negative sizes"
+			}
+			if !okx {
+				return false, wx
+			}
+			return false, wy
+		case token.SUB:
+			// len(x)-c needs len(x) >= c: only with a dominating guard on the whole expression
+		}
+	case *ssa.Convert:
+		return a.nonNegative(x.X, at, depth+1)
+	case *ssa.Phi:
+		if nonNegInduction(x) {
+			return true, "loop counter starting at a non-negative value and only incremented"
+		}
+	}
+	// dominating test on v itself
+	for d := at; d != nil; d = d.Idom() {
+		id := d.Idom()
+		if id == nil {
+			break
+		}
+		iff, isIf := id.Instrs[len(id.Instrs)-1].(*ssa.If)
+		if !isIf {
+			continue
+		}
+		bo, isB := iff.Cond.(*ssa.BinOp)
+		if !isB || bo.X != v {
+			continue
+		}
+		k, isK := constInt(bo.Y)
+		if !isK {
+			continue
+		}
+		var side *ssa.BasicBlock
+		switch {
+		case bo.Op == token.GEQ && k >= 0, bo.Op == token.GTR && k >= -1, bo.Op == token.EQL && k >= 0:
+			side = id.Succs[0]
+		case bo.Op == token.LSS && k >= 0, bo.Op == token.LEQ && k >= -1:
+			side = id.Succs[1]
+		}
+		if side == nil {
+			continue
+		}
+		other := id.Succs[0]
+		if other == side {
+			other = id.Succs[1]
+		}
+		if (side.Dominates(at) && len(side.Preds) == 1) || a.p.blockDies(other) || !a.p.reachesLive(other, at) {
+			return true, "tested to be non-negative before use"
+		}
+	}
+	return false, "the size " + describeValue(a.p, v) + " comes from data or a computation that may be negative"
 }
